@@ -458,6 +458,12 @@ func (b *Bridge) Ops(s *HState) []engine.Op {
 	if on("NextAtTimeout") {
 		ops = append(ops, engine.OpN("Next", c.Timeout), engine.OpN("Next", c.Timeout-5))
 	}
+	if on("Confirm") {
+		ops = append(ops, engine.OpN("Confirm", "ethereum", 0), engine.OpN("Confirm", "ethereum", 1))
+	}
+	if on("Prices") {
+		ops = append(ops, engine.OpN("Prices"))
+	}
 	if on("ColdStorage") {
 		for _, ch := range c.SendChains {
 			ops = append(ops, engine.OpN("ColdStorage", ch, c.SendDenoms[0]))
@@ -539,6 +545,25 @@ func (b *Bridge) Do(in *hub.Instance, gg Ghost, op engine.Op, st *engine.Step) {
 		// the external chain moves far ahead (beyond every batch timeout created so far)
 		g.ExtHeight[op.S[0]] += 1_000_000
 		st.Obs = "adv"
+	case "Confirm":
+		// validator op.I[0] confirms the latest signer set tx of the chain
+		ch := op.S[0]
+		v := b.Vals[op.I[0]]
+		if ss := in.Hub.GetLatestSignerSetTx(in.Ctx(), mhubtypes.ChainID(ch)); ss != nil {
+			sig, _ := mhubtypes.NewEthereumSignature(ss.GetCheckpoint([]byte("defaultgravityid")), v.EthKey)
+			r := in.DeliverMsg(hub.ConfirmMsg(v.Orch, ch, &mhubtypes.SignerSetTxConfirmation{SignerSetNonce: ss.Nonce, ExternalSigner: v.Eth.Hex(), Signature: sig}))
+			st.Obs = fmt.Sprint(r.OK())
+		}
+	case "Prices":
+		epoch := in.Oracle.GetCurrentEpoch(in.Ctx())
+		for vi, v := range b.Vals {
+			var pl []*oracletypes.Price
+			for i, n := range []string{"eth", "ethereum/gas", "bnb", "bsc/gas", "hub", "eth"} {
+				pl = append(pl, &oracletypes.Price{Name: n, Value: sdk.NewDec(int64(10 + i + vi))})
+			}
+			in.DeliverMsg(&oracletypes.MsgPriceClaim{Epoch: epoch, Prices: &oracletypes.Prices{List: pl}, Orchestrator: v.Acc.String()})
+		}
+		st.Obs = "prices"
 	case "ColdStorage":
 		ch, d := op.S[0], op.S[1]
 		err := in.Proposal(&mhubtypes.ColdStorageTransferProposal{ChainId: ch, Amount: sdk.NewCoins(sdk.NewInt64Coin(d, 777))})
@@ -717,6 +742,9 @@ func (b *Bridge) doNext(in *hub.Instance, g *bridgeGhost, dt int64, pre *view, p
 	}
 	b.after(in, g, engine.OpN("EndBlock"), pre, preBal, st, true)
 	g.Pending = nil
+	if b.Cfg.Prop == "C15" {
+		b.c15Check(in, g, st)
+	}
 	// --- BeginBlock of the next block: batch timeouts, automatic batching
 	pre2 := b.view(in)
 	preBal2 := b.balances(in)
@@ -797,6 +825,12 @@ func bridgeCfgFor(prop, tier string) (BridgeCfg, engine.Config) {
 		if !thorough {
 			ec.MaxDepth = 5
 		}
+	case "C15":
+		cfg.Ops = opsSet("Next", "Send", "ReqBatch", "Exec", "Deposit", "Cancel", "Confirm", "Prices")
+		cfg.Fees = []int64{7}
+		cfg.SendDenoms = []string{"hub"}
+		cfg.DepDests = []string{"hub", "minter"}
+		cfg.Seeds = [][]engine.Op{{}, seedObserved}
 	case "C01":
 		cfg.Ops = opsSet("Next", "Send", "Cancel", "ReqBatch", "Exec", "Deposit", "ExtAdvance", "NextTimeout", "ColdStorage")
 		cfg.DepDests = []string{"hub", "minter", "ethereum"}
@@ -834,7 +868,7 @@ func init() {
 		ec2.Deadline = ec.Deadline / 3
 		return []MultiCase{{Name: "oracle prices present", Spec: NewBridge(cfg), Cfg: ec}, {Name: "no oracle prices yet", Spec: NewBridge(np), Cfg: ec2}}, bridgeAssumptions(cfg)
 	}))
-	for _, p := range []string{"C04", "C10", "C12", "C13"} {
+	for _, p := range []string{"C04", "C10", "C12", "C13", "C15"} {
 		prop := p
 		Register(prop, BFSRunner(func(tier string) (Spec, engine.Config, []string) {
 			cfg, ec := bridgeCfgFor(prop, tier)
